@@ -194,6 +194,7 @@ type c17Case struct {
 	Spec     *vgSpec    `json:"spec,omitempty"`
 	Specs    []*vgSpec  `json:"specs,omitempty"`
 	GI       *vgGISpec  `json:"gi,omitempty"`
+	SP       *vgSPSpec  `json:"sp,omitempty"`
 	Layout   *c17Layout `json:"layout,omitempty"`
 	X        int        `json:"x,omitempty"`
 	Ref      string     `json:"ref,omitempty"`
@@ -227,8 +228,17 @@ func c17Sources(files []c17File) map[string]string {
 
 // (a) order independence
 func c17Order(res *vx.Result, st *c17Stats, s *vgSpec, only *c17Layout) (base c17Verdict, ok bool) {
-	key := s.Key()
-	decls := s.Render(nil)
+	return c17OrderDecls(res, st, s.Key(), s.Render(nil), c17Case{Part: "order", Spec: s}, only)
+}
+
+// c17OrderDecls: the declarations in every order and file split; tmpl identifies the package in a replay case.
+func c17OrderDecls(res *vx.Result, st *c17Stats, key string, decls []vgDecl, tmpl c17Case, only *c17Layout) (base c17Verdict, ok bool) {
+	mk := func(l *c17Layout, files []c17File) c17Case {
+		cs := tmpl
+		cs.Layout = l
+		cs.Sources = c17Sources(files)
+		return cs
+	}
 	n := len(decls)
 	id := make([]int, n)
 	for i := range id {
@@ -242,7 +252,7 @@ func c17Order(res *vx.Result, st *c17Stats, s *vgSpec, only *c17Layout) (base c1
 		return base, false
 	}
 	if pmsg != "" {
-		res.Violate("panic|"+key, "unused.Analyzer panicked/failed: "+pmsg, c17Case{Part: "order", Spec: s, Layout: &baseL, Sources: c17Sources(baseFiles)})
+		res.Violate("panic|"+key, "unused.Analyzer panicked/failed: "+pmsg, mk(&baseL, baseFiles))
 		return base, false
 	}
 	st.pkgs.Add(1)
@@ -250,7 +260,7 @@ func c17Order(res *vx.Result, st *c17Stats, s *vgSpec, only *c17Layout) (base c1
 	st.comparisons.Add(1)
 	if !c17Eq(vs[0].Unused, vs[1].Unused) {
 		res.Violate("repeat|"+key, fmt.Sprintf("running the analysis twice on the same package gives different reports: %v vs %v\n%s",
-			vs[0].Unused, vs[1].Unused, baseFiles[0].Src), c17Case{Part: "order", Spec: s, Layout: &baseL, Sources: c17Sources(baseFiles)})
+			vs[0].Unused, vs[1].Unused, baseFiles[0].Src), mk(&baseL, baseFiles))
 	}
 	if len(base.Unused) > 0 && len(base.Used) > 0 {
 		res.NontrivialN(1)
@@ -264,7 +274,7 @@ func c17Order(res *vx.Result, st *c17Stats, s *vgSpec, only *c17Layout) (base c1
 			c17GeneratorBug(res, st, key+" "+l.String(), terr, files)
 			return
 		}
-		cs := c17Case{Part: "order", Spec: s, Layout: &l, Sources: c17Sources(files)}
+		cs := mk(&l, files)
 		if pmsg != "" {
 			res.Violate("panic|"+key+"|"+l.String(), "unused.Analyzer panicked/failed: "+pmsg, cs)
 			return
@@ -306,7 +316,7 @@ func c17Order(res *vx.Result, st *c17Stats, s *vgSpec, only *c17Layout) (base c1
 	st.comparisons.Add(1)
 	if len(vs2) == 1 && !c17Eq(vs2[0].Unused, base.Unused) {
 		res.Violate("recheck|"+key, fmt.Sprintf("analysing a freshly checked copy of the same source gives a different report: %v vs %v\n%s",
-			base.Unused, vs2[0].Unused, baseFiles[0].Src), c17Case{Part: "order", Spec: s, Layout: &baseL, Sources: c17Sources(baseFiles)})
+			base.Unused, vs2[0].Unused, baseFiles[0].Src), mk(&baseL, baseFiles))
 	}
 	return base, true
 }
@@ -861,6 +871,8 @@ func TestVerifC17(t *testing.T) {
 			}
 		case "variants":
 			c17Variants(res, st, &cs)
+		case "ordersp":
+			c17OrderDecls(res, st, cs.SP.Key(), cs.SP.Decls(), c17Case{Part: "ordersp", SP: cs.SP}, cs.Layout)
 		case "repeatgi":
 			c17RepeatGI(res, st, cs.GI, 16)
 		}
@@ -905,6 +917,31 @@ func TestVerifC17(t *testing.T) {
 		}
 		wg.Wait()
 		res.Count("repetition_generic_interface_family_packages", giDone.Load())
+		// (e) interfaces with identical printed form, in every order of declarations and files
+		sps := vgSPEnumerate()
+		next.Store(0)
+		var spDone atomic.Int64
+		for w := 0; w < runtime.GOMAXPROCS(0); w++ {
+			wg.Add(1)
+			go func() {
+				defer wg.Done()
+				for {
+					i := int(next.Add(1)) - 1
+					if i >= len(sps) {
+						return
+					}
+					if res.Expired() {
+						res.NotExhaustive("time budget reached in part (e)")
+						return
+					}
+					c17OrderDecls(res, st, sps[i].Key(), sps[i].Decls(), c17Case{Part: "ordersp", SP: sps[i]}, nil)
+					spDone.Add(1)
+				}
+			}()
+		}
+		wg.Wait()
+		res.Count("same_print_interface_family_packages", spDone.Load())
+		res.Sample(map[string]any{"part": "order, interfaces with identical printed form", "key": sps[len(sps)/3].Key(), "source": vgFileText("p", sps[len(sps)/3].Decls())})
 	}
 	b := c17Bounds()
 	completed := "skipped"
